@@ -1572,12 +1572,15 @@ class _Ctx:
             ax = in_axes
             if is_t(in_axes, "tuple") or is_t(in_axes, "list"):
                 ax = in_axes[1][i] if i < len(in_axes[1]) else C(0)
-            if ax == C(None):
-                mapped.append(a)
-            elif ax == C(0):
-                mapped.append(mk_elem(a) if not is_t(a, "stack") else a[1])
-            else:
-                mapped.append(("axelem", a, ax))
+            def axel(a_, ax_):
+                if ax_ == C(None):
+                    return a_
+                if ax_ == C(0):
+                    return mk_elem(a_) if not is_t(a_, "stack") else a_[1]
+                if is_t(ax_, "phi"):  # an axis chosen by a Python-level test
+                    return mk_phi(ax_[1], axel(resolve(a_, ax_[1], True), ax_[2]), axel(resolve(a_, ax_[1], False), ax_[3]))
+                return ("axelem", a_, ax_)
+            mapped.append(axel(a, ax))
         body = self.call_value(fn, mapped, {})
         return ("stack", body)
 
